@@ -19,8 +19,9 @@ from props import cons_common as cc
 def run(ctx):
     q = ctx.quick()
     ctx.assumptions += [
-        "consensus-connection calls are sequential per replica as CometBFT guarantees; concurrent CheckTx / EstimateGas / query / "
-        "pruner interleavings are not driven yet (see DESIGN.md)",
+        "consensus-connection calls are sequential per replica as CometBFT guarantees; CheckTx, EstimateGas and historical state "
+        "queries run free in goroutines while validator replicas execute BeginBlock..EndBlock (never during Commit, where CometBFT "
+        "holds the mempool lock); the pruner runs on its own ticker in replicas with keep-N pruning",
         "block histories: staking methods, node (re)registration, unfreeze, epoch transitions, evidence, vote patterns",
     ]
     if ctx.replay:
@@ -64,5 +65,5 @@ def run(ctx):
     if not rej2:
         raise vlib.Infra("self-test failed: forged divergence accepted")
     ctx.coverage.update(traces_validated_against_impl=nv, trace_events=nev, blocks=t["blocks"], replica_paths=t["paths"],
-                        path_rows=len(uniq), replicas=4, selftest_forged_divergence_rejected=True,
+                        path_rows=len(uniq), replicas=4, concurrent_calls=sum(s.get("concurrent_calls", 0) for s in sums), selftest_forged_divergence_rejected=True,
                         samples=[json.loads(x) for x in lines if '"ev":"agree"' in x][:2])
